@@ -348,6 +348,14 @@ def run(ctx):
     else:
         sets = [(bi, s) for bi in cl.normal_blocks() for s in cl.blocks[bi]['s'] if s['k'] == 'assign' and s['r']['k'] == 'agg' and s['r']['ak'] == 'Adt:db::Operation::Set']
         ctx.ob('3a set-anchor', 'anchor', cl.path, 'the closure builds Operation::Set', len(sets) == 1, '')
+        # what is re-committed into the destination has to be acceptable for ANY destination column options (migration changes
+        # them): a Set is; Reference / Dereference are refused by a column without reference counting (the count belongs to the
+        # source column), the tree operations by everything but multitree columns
+        others = sorted(set(s['r']['ak'] for fb2 in lib.family(F, 'migration::migrate') for bi in fb2.normal_blocks() for s in fb2.blocks[bi]['s']
+                            if s['k'] == 'assign' and s['r']['k'] == 'agg' and str(s['r'].get('ak', '')).startswith('Adt:db::Operation::') and s['r']['ak'] != 'Adt:db::Operation::Set'))
+        ctx.ob('3e only-Set-is-recommitted', 'K9-agreement', cl.path,
+               'migrate re-commits entries as Operation::Set only (the one operation every kind of destination hash column accepts; a reference count is replayed as repeated Sets)',
+               not others, 'also builds %s' % [o.split('::')[-1] for o in others])
         for bi, s in sets:
             vop = s['r']['a'][1]
             sl = backward_slice(cl, [op_place(vop)])
